@@ -134,8 +134,11 @@ class Job:
         secs = round(time.time() - t0, 3)
         self._absorb(ctx)
         rec = dict(name=name, verdict=verdict, secs=secs)
-        if isinstance(term, bool) or z3.is_true(z3.simplify(term)):
-            rec["trivial"] = True      # decided without the solver (concrete outcome)
+        if isinstance(term, bool):
+            if term:
+                rec["trivial"] = True      # a concrete outcome of a symbolic path (no solver query needed)
+        elif z3.is_true(z3.simplify(term)):
+            rec["by"] = "term normalisation"   # both sides are the same term after z3's simplifier (congruence)
         self.obligations.append(rec)
         if (verdict == "sat" or verdict == "unknown") and cex is not None:
             try:
@@ -379,9 +382,10 @@ def main(check_module, argv=None):
             explanation=mod.EXPLANATION,
             obligations=n_ob, discharged=n_ok,
             evaluations=n_ob, distinct_nontrivial=nontrivial,
-            rule="an obligation is one (path, assertion) pair decided by the SMT solver over all values of the "
-                 "symbolic inputs on that path; distinct = distinct (job, obligation name); non-trivial = discharged "
-                 "with verdict unsat on a path the harness reached",
+            rule="an obligation is one (path, assertion) pair decided over all values of the symbolic inputs on that path "
+                 "(z3 check, or z3's simplifier when both sides normalise to the same term); distinct = distinct (job, "
+                 "obligation name); non-trivial = discharged (unsat) and not a mere concrete outcome flag of the path",
+            decided_by_normalisation=sum(1 for o in obligations if o.get("by")),
             undischarged=[dict(job=o["job"], name=o["name"], verdict=o["verdict"]) for o in failed + undecided][:30],
             paths=int(stats.get("paths", 0)), reachable_paths=int(stats.get("reachable_paths", 0)),
             truncated_paths=int(stats.get("truncated", 0)), infeasible_prefixes=int(stats.get("infeasible", 0)),
